@@ -73,6 +73,14 @@ class _Args:
         self.kept.append((x, _c.deepcopy(x)))
         return x
 
+    def check_plain(self, fn, x):
+        """call fn on a plain array / list and remember whether the result is, or shares memory with, the argument"""
+        r = fn(x)
+        import numpy as _np
+        if r is x or (isinstance(r, _np.ndarray) and isinstance(x, _np.ndarray) and _np.shares_memory(r, x)):
+            self.shared_plain = True
+        return None
+
 
 ARGS = _Args()
 
@@ -136,6 +144,14 @@ def _registry(rng):
         reg("fancy_plot", lambda d, dim: (dnp.fancy_plot(d, dim=dim), None)[1]),
         reg("fancy_plot-bad", lambda d, dim: (dnp.fancy_plot(d, [], "t", False, "not-a-format", dim=dim), None)[1]),
         reg("unknown-dim", lambda d, dim: dnp.integrate(d, "no_such_dim")),
+        # functions that also accept plain arrays / lists / scalars: the argument must come back untouched and unshared
+        reg("dBm2w-float-array", lambda d, dim: ARGS.check_plain(dnp.dBm2w, ARGS.keep(np.array([-20.0, 0.0, 13.5, 30.0])))),
+        reg("dBm2w-int-array", lambda d, dim: ARGS.check_plain(dnp.dBm2w, ARGS.keep(np.array([-20, 0, 10, 30])))),
+        reg("dBm2w-list", lambda d, dim: ARGS.check_plain(dnp.dBm2w, ARGS.keep([-20.0, 0.0, 30.0]))),
+        reg("w2dBm-float-array", lambda d, dim: ARGS.check_plain(dnp.w2dBm, ARGS.keep(np.array([1e-5, 1e-3, 0.5, 2.0])))),
+        reg("w2dBm-list", lambda d, dim: ARGS.check_plain(dnp.w2dBm, ARGS.keep([1e-5, 1e-3, 2.0]))),
+        reg("convert_power-array", lambda d, dim: ARGS.check_plain(lambda a: dnp.convert_power(a, mode="dBm2W"), ARGS.keep(np.array([-10.0, 0.0, 20.0])))),
+        reg("convert_power-array-back", lambda d, dim: ARGS.check_plain(lambda a: dnp.convert_power(a, mode="W2dBm"), ARGS.keep(np.array([1e-4, 1e-3, 0.1])))),
         reg("unknown-dim-s2n", lambda d, dim: dnp.signal_to_noise(d, dim="no_such_dim")),
     ]
     return R
@@ -170,6 +186,7 @@ def registry_oracle(tier, seed):
                     d = dnp.DNPData(vals.copy(), list(dims), [c.copy() for c in coords], **kw)
                     before = deep_snap(d)
                     ARGS.kept = []
+                    ARGS.shared_plain = False
                     res, err = None, None
                     with warnings.catch_warnings():
                         warnings.simplefilter("ignore")
@@ -187,6 +204,9 @@ def registry_oracle(tier, seed):
                         fails.append({"key": key, "clause": key, "ops": [{"function": name, "shape": shape, "dim_pos": k,
                                                                          "complex": cplx, "attrs": with_attrs, "error": err}]})
                     from oracles import hist_arrays, history_aliases_live, _eq
+                    if ARGS.shared_plain:
+                        key = "C03:shared-state:%s:result-is-the-argument" % name
+                        fails.append({"key": key, "clause": key, "ops": [{"function": name}]})
                     for x, x0 in ARGS.kept:
                         if not _eq(x, x0):
                             key = "C03:argument-modified:%s:plain-argument" % name
